@@ -879,6 +879,13 @@ func c24Gen(rng *rand.Rand, tier string) []Case {
 		append(append(hs(), auth("sekret")...), g.hdr("bogus"), g.hdr("stats")),
 		append(append(hs(), auth("sekret")...), g.hdr("stats"), g.hdr("leave")),
 	}
+	badV := func(v string) []string { return []string{g.hdr("handshake"), "M" + mKV("Version", "i"+v)} }
+	fixed = append(fixed,
+		append(badV("2"), g.hdr("event"), "M"+mKV("Name", mS("deploy"))+","+mKV("Payload", "b"+hexs("pl"))),
+		append(badV("-1"), g.hdr("members")),
+		append(badV("2147483647"), g.hdr("stats"), g.hdr("tags"), "M"+mKV("Tags", "D"+hexs("role")+":"+mS("web"))),
+		append(append(badV("3"), auth("sekret")...), g.hdr("members")),
+	)
 	for i, objs := range fixed {
 		out = append(out, c24Case(fmt.Sprintf("fixed%d", i), "sekret", objs, true, "fixed"))
 		out = append(out, c24Case(fmt.Sprintf("fixed%d-nokey", i), "", objs, true, "fixed"))
@@ -950,6 +957,24 @@ func c24Gen(rng *rand.Rand, tier string) []Case {
 			if withLeave {
 				objs = append(objs, g.hdr("leave"))
 				leaveOK = true
+			}
+		case kind == 5 && rng.Intn(2) == 0: // handshakes REJECTED for an unsupported non-zero version, then ordinary commands
+			tag = "bad-version"
+			vers := []string{"2", "-1", "3", "255", "-128", "65536", "2147483647", "-2147483648", "0"}
+			for n := 1 + rng.Intn(2); n > 0; n-- {
+				h := g.hdr("handshake")
+				if variant {
+					h = g.hdrVariant("handshake")
+				}
+				v := g.pick(vers)
+				objs = append(objs, h, g.pick([]string{"M" + mKV("Version", "i"+v), "Ai" + v, "M" + mKV("Version", "i"+v) + "," + mKV("Extra", "i1")}))
+			}
+			if key != "" && rng.Intn(2) == 0 {
+				objs = append(objs, auth(key)...)
+			}
+			k := 1 + rng.Intn(4)
+			for j := 0; j < k; j++ {
+				objs = append(objs, g.request(g.pick(c24Cmds), false)...)
 			}
 		case kind == 5: // no handshake at all, or a failing one
 			tag = "no-handshake"
